@@ -192,6 +192,15 @@ func reorgScenarioOpts(c *pbt.C, id string, check func(c *pbt.C, key string, b, 
 			_ = sim.ConsensusSummary(b)
 			c.Class("consensus-read-before-switch")
 		}
+		// wallets and explorers look the blocks of branch X up by hash while B is on it
+		var sendsOfX []*nom.AccountBlock
+		for _, dm := range b.Range(forkAt+1, b.Height()) {
+			for _, blk := range dm.AccountBlocks {
+				if got, err := b.Chain.GetFrontierMomentumStore().GetAccountBlockByHash(blk.Hash); err == nil && got != nil && got.BlockType == nom.BlockTypeUserSend {
+					sendsOfX = append(sendsOfX, got)
+				}
+			}
+		}
 		// the switch
 		idx, err := b.Bridge.InsertChain(a2.Range(forkAt+1, topY))
 		c.Note("B: InsertChain(Y %d..%d) -> %d %v", forkAt+1, topY, idx, err)
@@ -227,6 +236,36 @@ func reorgScenarioOpts(c *pbt.C, id string, check func(c *pbt.C, key string, b, 
 			c.Class("pool-survived-switch")
 		}
 		check(c, id, b, cn)
+		// a send that existed on the abandoned branch only is gone: its addressee cannot receive it on B any more than on C
+		tried := 0
+		for _, snd := range sendsOfX {
+			kp := h.W.Keys.ByAddr[snd.ToAddress]
+			if kp == nil || tried >= 4 {
+				continue
+			}
+			if onC, _ := cn.Chain.GetFrontierMomentumStore().GetAccountBlockByHash(snd.Hash); onC != nil {
+				continue // the adopted branch confirmed the same block
+			}
+			if len(b.Chain.GetUncommittedAccountBlocksByAddress(snd.ToAddress)) > 0 || len(cn.Chain.GetUncommittedAccountBlocksByAddress(snd.ToAddress)) > 0 {
+				continue
+			}
+			tried++
+			try := func(n *sim.Node) (err error) {
+				defer func() {
+					if r := recover(); r != nil {
+						err = fmt.Errorf("panic: %v", r)
+					}
+				}()
+				_, err = n.Sup.GenerateFromTemplate(&nom.AccountBlock{BlockType: nom.BlockTypeUserReceive, Address: snd.ToAddress, FromBlockHash: snd.Hash}, kp.Signer)
+				return err
+			}
+			eb, ec := try(b), try(cn)
+			c.Class("receive-of-a-send-of-the-abandoned-branch-tried")
+			if eb == nil && ec != nil {
+				c.Failf(id+"/abandoned-send-receivable", "send %v (%v -> %v, %v) was confirmed on the abandoned branch only; after the switch B lets %v receive it, a node that only saw the adopted branch answers: %v",
+					snd.Hash, snd.Address, snd.ToAddress, snd.Amount, snd.ToAddress, ec)
+			}
+		}
 		// B produces the next momentum itself (from whatever its pool holds after the switch): every
 		// other honest node must accept it
 		bProduces := func(others ...*sim.Node) {
